@@ -69,10 +69,20 @@ type c14Input struct {
 	Via        string  `json:"via,omitempty"`        // "" = util.NewWorkerGroup directly | runner-v3 | runner-v2: the group as the runner's constructor builds it (Jobs = batches per CheckUpkeeps caller)
 	PerTick    int     `json:"perTick,omitempty"`    // delegate-v3: payloads the log provider returns on every poll of the flow
 	Ticks      int     `json:"ticks,omitempty"`      // delegate-v3: polls to let happen
+	RecPerTick int     `json:"recPerTick,omitempty"` // delegate-v3: recovery proposals the recoverable provider returns on every poll (0: none)
 	Unset      bool    `json:"unset,omitempty"`      // delegate-v3: MaxServiceWorkers left at 0 (Workers then holds the default that applies)
 	Queue      int     `json:"queue,omitempty"`      // runner: WorkerQueueLength (!= Workers)
 	Trace      bool    `json:"trace,omitempty"`      // record the verif hook events of the run (needs the hooks in /repo: c14_trace_test.go)
 	Ops        []c14Op `json:"ops,omitempty"`        // direct: the calls on the group's exported API / on a util.Queue, in order (c14_direct_test.go)
+	// VOLUME (c14_volume_test.go): a slow reader.  The result function of caller i PARKS at its 1st, (1+n)th,
+	// (1+2n)th … call (n = ResHoldEvery[i]; 0: never) until the harness releases it: when every goroutine of
+	// the bubble is durably blocked and no job function is holding — i.e. the workers have finished
+	// everything they can, all of it stored for a reader that has not come back — or, with ResLag = m > 0,
+	// also at every m-th wave of released job functions.  ResMs: the result function takes that many
+	// virtual ms per result (timed history: a reader with a fixed rate against workers with theirs).
+	ResHoldEvery []int `json:"resHoldEvery,omitempty"`
+	ResLag       int   `json:"resLag,omitempty"`
+	ResMs        int   `json:"resMs,omitempty"`
 }
 
 type c14Caller struct {
@@ -191,7 +201,17 @@ func c14LongMs(in c14Input, caller, job int) int {
 }
 
 func (in c14Input) timed() bool {
-	return len(in.StartAtMs) > 0 || in.LongMs > 0 || in.StopAtMs > 0 || in.hasDeadline()
+	return len(in.StartAtMs) > 0 || in.LongMs > 0 || in.StopAtMs > 0 || in.hasDeadline() || in.ResMs > 0
+}
+
+// slowReader: some result function parks or takes time
+func (in c14Input) slowReader() bool {
+	for _, e := range in.ResHoldEvery {
+		if e > 0 {
+			return true
+		}
+	}
+	return in.ResMs > 0
 }
 
 func c14Panics(in c14Input, caller, job int) bool {
@@ -315,6 +335,16 @@ func c14Run(t *testing.T, in c14Input, verdict func(c14Impl)) (impl c14Impl) {
 		holders = nil
 		return hs
 	}
+	// result functions that are parked (slow reader), waiting to be released by the harness
+	var resHolders []chan struct{}
+	var noPark atomic.Bool
+	takeResHolders := func() []chan struct{} {
+		holdMu.Lock()
+		defer holdMu.Unlock()
+		hs := resHolders
+		resHolders = nil
+		return hs
+	}
 	cs := make([]*callerState, n)
 	for i := range cs {
 		cs[i] = &callerState{atReturn: -1}
@@ -423,6 +453,10 @@ func c14Run(t *testing.T, in c14Input, verdict func(c14Impl)) (impl c14Impl) {
 			if i < len(in.Stagger) {
 				stagger = in.Stagger[i]
 			}
+			resEvery, resCalls := 0, 0 // (resCalls: only the reader goroutine of this caller touches it)
+			if i < len(in.ResHoldEvery) {
+				resEvery = in.ResHoldEvery[i]
+			}
 			go func() {
 				if i < len(in.StartAtMs) && in.StartAtMs[i] > 0 {
 					time.Sleep(time.Duration(in.StartAtMs[i])*time.Millisecond + 137*time.Microsecond)
@@ -516,6 +550,19 @@ func c14Run(t *testing.T, in c14Input, verdict func(c14Impl)) (impl c14Impl) {
 						if in.StopWhere == "res" && v > 0 && in.stopsAt(i, v-1) {
 							stop() // Stop from inside the result callback
 						}
+						// a slow reader: the result function is held up (lock, log write, cache update) while the
+						// workers go on storing results
+						resCalls++
+						if resEvery > 0 && (resCalls-1)%resEvery == 0 && !noPark.Load() {
+							ch := make(chan struct{})
+							holdMu.Lock()
+							resHolders = append(resHolders, ch)
+							holdMu.Unlock()
+							<-ch
+						}
+						if in.ResMs > 0 && !noPark.Load() {
+							time.Sleep(time.Duration(in.ResMs) * time.Millisecond)
+						}
 					})
 				c.mu.Lock()
 				c.atReturn = len(c.delivered) + c.anon
@@ -547,13 +594,28 @@ func c14Run(t *testing.T, in c14Input, verdict func(c14Impl)) (impl c14Impl) {
 			}
 			return true
 		}
+		wave := 0
 		for {
 			synctest.Wait()
 			// everything is durably blocked; jobs that are holding occupy their workers: release them
 			// (the next wave saturates the workers again) until no job is holding any more
 			hs := takeHolders()
 			if len(hs) > 0 {
+				wave++
 				for _, h := range hs {
+					close(h)
+				}
+				if in.ResLag > 0 && wave%in.ResLag == 0 {
+					for _, h := range takeResHolders() {
+						close(h)
+					}
+				}
+				continue
+			}
+			// no job function is holding: whatever the workers could finish is stored; now the parked
+			// result functions (slow readers) come back
+			if rs := takeResHolders(); len(rs) > 0 {
+				for _, h := range rs {
 					close(h)
 				}
 				continue
@@ -570,6 +632,7 @@ func c14Run(t *testing.T, in c14Input, verdict func(c14Impl)) (impl c14Impl) {
 		if impl.Stuck && verdict != nil {
 			verdict(impl) // FIRST record, then try to release
 		}
+		noPark.Store(true) // the verdict is taken: from here on the result functions neither park nor take time
 		if strings.HasSuffix(in.Mode, "-after") {
 			inject(in.Mode)
 			synctest.Wait()
@@ -1051,6 +1114,28 @@ func c14Cases(t *testing.T) (cases []c14Case, dist map[string]int) {
 	for i, nd := 0, tierN(400, 6000); i < nd; i++ {
 		cases = append(cases, c14Case{"gen-direct", c14GenDirect(r7)})
 	}
+	// VOLUME: crowds of callers, long job lists with slow readers, standing backlogs, bursts, rates (c14_volume_test.go)
+	for _, in := range c14VolumeEdge() {
+		cases = append(cases, c14Case{"edge-volume", in})
+	}
+	volScale := 1
+	if thorough() {
+		volScale = 3
+	}
+	r8 := NewRng(seed() + 0xb167)
+	for i, nv := 0, tierN(28, 840); i < nv; i++ {
+		cases = append(cases, c14Case{"gen-volume", c14GenVolume(r8, i, volScale)})
+	}
+	r10 := NewRng(seed() + 0xb169)
+	for i, nv := 0, tierN(8, 200); i < nv; i++ {
+		cases = append(cases, c14Case{"gen-volume-direct", c14GenDirectVolume(r10, i, volScale)})
+	}
+	if c14TraceBegin != nil {
+		r9 := NewRng(seed() + 0xb168)
+		for i, nv := 0, tierN(6, 120); i < nv; i++ {
+			cases = append(cases, c14Case{"gen-volume-trace", c14GenVolumeTrace(r9, i, volScale)})
+		}
+	}
 	if c14TraceBegin != nil {
 		// trace validation subset: smaller runs (a trace has ~30 events per job), own random stream so
 		// that the cases above are the same with and without the hooks
@@ -1078,6 +1163,16 @@ func c14Cases(t *testing.T) (cases []c14Case, dist map[string]int) {
 			cases = append(cases, c14Case{"gen-trace", c14GenTrace(r2, i)})
 		}
 	}
+	if only := os.Getenv("VERIF_C14_ONLY"); only != "" {
+		// debugging: keep the cases whose source label contains the given text
+		var kept []c14Case
+		for _, c := range cases {
+			if strings.Contains(c.src, only) {
+				kept = append(kept, c)
+			}
+		}
+		cases = kept
+	}
 	for _, c := range cases {
 		in := c.in
 		tot := 0
@@ -1092,6 +1187,30 @@ func c14Cases(t *testing.T) (cases []c14Case, dist map[string]int) {
 		}
 		if in.hasDeadline() {
 			dist["deadline=yes"]++
+		}
+		if in.slowReader() {
+			dist["slow-reader=yes"]++
+		}
+		if len(in.Jobs) > 64 {
+			dist["volume:callers>64"]++
+		}
+		if in.Via == "delegate-v3" && in.Ticks > 20 {
+			dist["volume:ticks>20"]++
+		}
+		mx := 0
+		for _, j := range in.Jobs {
+			if j > mx {
+				mx = j
+			}
+		}
+		if mx > 256 {
+			dist["volume:jobs-of-one-caller>256"]++
+		}
+		if mx > 1000 {
+			dist["volume:jobs-of-one-caller>1000"]++
+		}
+		if tot > 1024 {
+			dist["volume:jobs-in-all>1024"]++
 		}
 		if in.hasStopJobs() {
 			dist["stop-from-inside="+map[bool]string{true: "res", false: "job"}[in.StopWhere == "res"]]++
@@ -1120,7 +1239,11 @@ func c14Cases(t *testing.T) (cases []c14Case, dist map[string]int) {
 				dist["panics+holding-jobs"]++
 			}
 		}
-		dist[fmt.Sprintf("callers=%d", len(in.Jobs))]++
+		if len(in.Jobs) <= 4 {
+			dist[fmt.Sprintf("callers=%d", len(in.Jobs))]++
+		} else {
+			dist[fmt.Sprintf("callers>=%d", bucket(len(in.Jobs)))]++
+		}
 		dist[fmt.Sprintf("workers=%d", bucket(in.Workers))]++
 		dist[fmt.Sprintf("jobs=%d", bucket(tot))]++
 		if in.Mode == "stop" || in.Mode == "cancel" || in.Mode == "both" {
